@@ -119,6 +119,16 @@ func (ucr *UnsignedChunkReader) Read(p []byte) (int, error) {
 		return 0, err
 	}
 
+	// The source reader may have returned its final error (e.g. the deferred
+	// signature verification of the auth reader) together with the last
+	// bytes; bufio.Reader keeps it until the next read. Ask once more so it
+	// is not lost, and so that the source is read to its end.
+	if _, err := ucr.reader.Peek(1); err == nil {
+		return 0, errMalformedEncoding
+	} else if !errors.Is(err, io.EOF) {
+		return 0, err
+	}
+
 	return ucr.offset, io.EOF
 }
 
